@@ -14,6 +14,6 @@ CONSTANTS MaxDepth = 4
           MaxSteps = 0
           Names = {"a", "b", "f"}
           D = @D@
-          E = @D@
+          E = 0
           PresetSet = @PRESETS@
 INVARIANTS Emit
